@@ -1,13 +1,16 @@
 import H4.DD
 import H4.DDConfig
 import H4.Driver.Util
-/-! Line-protocol glue for engine `dd` (harness/e_dd.c). State = the open file (or none). -/
+import H4.Gen.Fn.Bitvect2
+/-! Line-protocol glue for engine `dd` (harness/e_dd.c). State = the open file (or none), and the bit vector of the unit-level
+    `bv*` ops (bitvect.c: answered by the hand model `H4.Bitvect` and cross-run with the functions translated from the C text). -/
 namespace H4.Driver
 open H4.DD H4.Gen.Hdf
 
 structure DDState where
   cfg : Cfg := H4.DD.currentCfg
   file : Option File := none
+  bv : Option H4.Bitvect.BV := none
   deriving Inhabited
 
 end H4.Driver
@@ -80,10 +83,92 @@ def hlcreate (cfg : Cfg) (s : File) (tag ref : Nat) (nblk : Nat) : Res × File :
     | (_, s) => (.fail, s)
 
 end H4.Driver.DDEng
+
+/-! unit level of engine `dd`: `bv_set` / `bv_get` / `bv_find_next_zero` as TRANSLATED from `hdf/src/bitvect.c` (`H4.Gen.Fn.Bitvect2`, regenerated on
+    every run) are executed on the same arguments as the hand model `H4.Bitvect`; a difference (or `ub` / `oof`) is appended to the model's answer as
+    ` GEN=…`, i.e. it shows up as a DIFF against the real C.  The translated functions get the C fields of the model's CURRENT vector; `bvfill`
+    threads its own C state through the whole run of `bv_set` calls. -/
+namespace H4.Driver.GenBV
+open H4.Bitvect H4.Gen.Fn.Bitvect2
+
+def cells (l : List Nat) : List Int := l.map Int.ofNat
+
+/-- buffer as the harness prints it: hex, trailing zero bytes trimmed, `-` when nothing is left; a cell that is not a byte is shown as `[v]` -/
+def showCells (l : List Int) : String :=
+  let t := (l.reverse.dropWhile (· == 0)).reverse
+  if t.isEmpty then "-" else
+  String.join (t.map fun c => if 0 ≤ c ∧ c < 256 then String.ofList [hexDigit (c.toNat / 16), hexDigit (c.toNat % 16)] else s!"[{c}]")
+
+def showBV (ret : Int) (b : BV) : String := s!"{ret} {b.bitsUsed} {b.arraySize} {b.lastZero} {showCells (cells b.buf)}"
+
+/-- the model's answer; when the translated function disagrees the answer is marked at BOTH ends (the checker shows only the head of a long line) -/
+def tag (model : String) (ub oof : Bool) (gen : String) : String :=
+  if ub then s!"GEN=ub {model} GEN=ub" else if oof then s!"GEN=oof {model} GEN=oof" else if gen == model then model else s!"GEN-DIFFERS {model} GEN=[{gen}]"
+
+def set (b : BV) (bit val : Int) (model : String) : String :=
+  let s := bv_set 0 false b.bitsUsed b.arraySize (cells b.buf) b.lastZero bit val
+  tag model s.ub s.oof s!"{s.ret} {s.b_bits_used} {s.b_array_size} {s.b_last_zero} {showCells s.b_buffer}"
+
+def get (b : BV) (bit : Int) (model : String) : String :=
+  let s := bv_get 0 false false b.bitsUsed (cells b.buf) bit
+  tag model s.ub s.oof (toString s.ret)
+
+def find (b : BV) (model : String) : String :=
+  let s := bv_find_next_zero (b.arraySize + 1) false false b.bitsUsed b.lastZero (cells b.buf) b.arraySize
+  tag model s.ub s.oof s!"{s.ret} {s.b_bits_used} {s.b_array_size} {s.b_last_zero} {showCells s.b_buffer}"
+
+/-- `for (i = a; i < e; i++) if (bv_set(b, i, v) == FAIL) r = FAIL;` on the translated `bv_set` -/
+def fill (b : BV) (a n : Nat) (val : Int) (model : String) : String :=
+  let rec go : Nat → Int → Int × Int × Int × List Int × Int × Bool × Bool → Int × Int × Int × List Int × Int × Bool × Bool
+    | 0, _, st => st
+    | k + 1, i, (bu, as, lz, buf, r, ub, oof) =>
+      let s := bv_set 0 false bu as buf lz i val
+      go k (i + 1) (s.b_bits_used, s.b_array_size, s.b_last_zero, s.b_buffer, if s.ret = -1 then -1 else r, ub || s.ub, oof || s.oof)
+  let (bu, as, lz, buf, r, ub, oof) := go n a (b.bitsUsed, b.arraySize, b.lastZero, cells b.buf, 0, false, false)
+  tag model ub oof s!"{r} {bu} {as} {lz} {showCells buf}"
+
+def null (model : String) : String :=
+  let s1 := bv_set 0 true 0 0 [] 0 3 1
+  let s2 := bv_get 0 true true 0 [] 3
+  let s3 := bv_find_next_zero 0 true true 0 0 [] 0
+  tag model (s1.ub || s2.ub || s3.ub) (s1.oof || s2.oof || s3.oof) s!"{s1.ret} {s2.ret} {s3.ret}"
+
+end H4.Driver.GenBV
 namespace H4.Driver
 open H4.DD H4.Gen.Hdf H4.Driver.DDEng
 
+/-- the unit-level ops of engine `dd` on the bit vector (bitvect.c): `bvnew` · `bvset bit value` · `bvfill a e value` · `bvget bit` · `bvfind` · `bvnull` -/
+def stepBV (st : DDState) (args : List String) : Option (DDState × String) :=
+  open H4.Bitvect in
+  match args, st.bv with
+  | ["bvnew"], _ => some ({ st with bv := some BV.new }, GenBV.showBV 0 BV.new)
+  | ["bvnull"], _ => some (st, GenBV.null "-1 -1 -1")
+  | ["bvset", bit, v], some b => match bit.toInt?, v.toInt? with
+    | some bit, some v =>
+      if bit < 0 then some (st, GenBV.set b bit v (GenBV.showBV (-1) b))
+      else
+        let b' := b.set bit.toNat (v != 0)
+        some ({ st with bv := some b' }, GenBV.set b bit v (GenBV.showBV 0 b'))
+    | _, _ => some (st, "bad-op")
+  | ["bvfill", a, e, v], some b => match a.toNat?, e.toNat?, v.toInt? with
+    | some a, some e, some v =>
+      let b' := (List.range (e - a)).foldl (fun b i => b.set (a + i) (v != 0)) b
+      some ({ st with bv := some b' }, GenBV.fill b a (e - a) v (GenBV.showBV 0 b'))
+    | _, _, _ => some (st, "bad-op")
+  | ["bvget", bit], some b => match bit.toInt? with
+    | some bit => some (st, GenBV.get b bit (if bit < 0 then "-1" else toString (b.get bit.toNat)))
+    | none => some (st, "bad-op")
+  | ["bvfind"], some b =>
+    let r := b.findNextZero
+    some ({ st with bv := some r.2 }, GenBV.find b (GenBV.showBV r.1 r.2))
+  | [op], none => if op.startsWith "bv" then some (st, "no-vector") else none
+  | op :: _, none => if op.startsWith "bv" then some (st, "no-vector") else none
+  | _, _ => none
+
 def stepDD (st : DDState) (args : List String) : DDState × String :=
+  match stepBV st args with
+  | some r => r
+  | none =>
   match args, st.file with
   | ["cfg", bits], _ =>
     let b (i : Nat) : Bool := (bits.toList.getD i '0') == '1'
